@@ -78,6 +78,14 @@ def rules(ctx, tier):
     r.need(2, "record-writing bodies (entry, sentinel)")
     out.append(r.finish())
 
+    r = Rule("R6", "no snapshot between an operation's append and its apply (the snapshot's version never runs ahead of its content)",
+             "a checkpoint slips between append and apply, persists a snapshot stamped with the new version but without "
+             "its effect; after a kill, replay skips that version: an acknowledged operation is gone")
+    from .c02 import append_apply_atomic
+    append_apply_atomic(ctx, r)
+    r.need(3, "append and apply sites on the live path")
+    out.append(r.finish())
+
     r = Rule("R5", "recovery destroys nothing it has not superseded",
              "a truncating create on the live segment at reopen erases acknowledged operations")
     opens = ctx.open_roots()
